@@ -293,7 +293,7 @@ class Run:
         origin.lp.network_manager.broadcast_transaction(real_t)      # as scripts/send.py does
         origin_call = self.relays.pop(n_before) if len(self.relays) > n_before else None
         c["transactions_broadcast"] += 1
-        moved = net.settle(None, fragment=rng.random() < 0.5, max_actions=200000)      # no timer steps
+        moved = net.settle(None, fragment=rng.random() < 0.5, max_actions=4000)      # no timer steps
         if net.enabled():
             mon.v("relay-traffic-does-not-die-out", "after %d deliveries without timer steps traffic is still in flight" % moved, self.w)
         self.check_escaped("transaction relay")
@@ -317,7 +317,7 @@ class Run:
             if len(self.relays) > n_before:
                 self.relays.pop(n_before)
             c["invalid_transactions_broadcast"] = c.get("invalid_transactions_broadcast", 0) + 1
-            moved = net.settle(None, fragment=rng.random() < 0.5, max_actions=50000)
+            moved = net.settle(None, fragment=rng.random() < 0.5, max_actions=4000)
             if net.enabled():
                 mon.v("relay-traffic-does-not-die-out", "an invalid transaction is still being passed around after %d deliveries "
                       "without timer steps" % moved, self.w)
